@@ -152,6 +152,9 @@ func c03CLI(e *c03Env, rnd *vh.Rand) error {
 						c.Digest = "sha256"
 					}
 					n++
+					if e.hangs[cmd] >= 2 {
+						continue // this command already hung twice; each hang costs the full timeout
+					}
 					if err := c03CLIOne(e, rnd, bin, c, n); err != nil {
 						return err
 					}
@@ -302,7 +305,7 @@ func c03CLIOne(e *c03Env, rnd *vh.Rand, bin string, c *c03CLICase, n int) error 
 	switch c.Cmd {
 	case "extract":
 		out := filepath.Join(work, "out")
-		c.Exit = c03Run(120*time.Second, nil, bin, append(append(append(base, "extract"), storeArgs...), idxFile, out)...)
+		c.Exit = c03Run(20*time.Second, nil, bin, append(append(append(base, "extract"), storeArgs...), idxFile, out)...)
 		got, _ := os.ReadFile(out)
 		c.Same = bytes.Equal(got, blob)
 		if c.Exit == 0 && c.Same && !c.Skip {
@@ -312,12 +315,12 @@ func c03CLIOne(e *c03Env, rnd *vh.Rand, bin string, c *c03CLICase, n int) error 
 		}
 	case "cat":
 		var buf bytes.Buffer
-		c.Exit = c03Run(120*time.Second, &buf, bin, append(append(append(base, "cat"), storeArgs...), idxFile)...)
+		c.Exit = c03Run(20*time.Second, &buf, bin, append(append(append(base, "cat"), storeArgs...), idxFile)...)
 		c.Same = bytes.Equal(buf.Bytes(), blob)
 	case "untar":
 		out := filepath.Join(work, "out")
 		os.MkdirAll(out, 0755)
-		c.Exit = c03Run(120*time.Second, nil, bin, append(append(append(base, "untar", "-i", "--no-same-owner"), storeArgs...), idxFile, out)...)
+		c.Exit = c03Run(20*time.Second, nil, bin, append(append(append(base, "untar", "-i", "--no-same-owner"), storeArgs...), idxFile, out)...)
 		c.Same = c03SameTree(c03Tree(out), srcTree)
 	}
 	bad := c.Plant != "good"
@@ -331,6 +334,7 @@ func c03CLIOne(e *c03Env, rnd *vh.Rand, bin string, c *c03CLICase, n int) error 
 		e.r.Dist("cli-exit:nonzero")
 	}
 	if c.Exit == -2 {
+		e.hangs[c.Cmd]++
 		e.r.Fail("predicate", "cli/"+c.Cmd+"-hangs", fmt.Sprintf("desync %s did not finish within the timeout (planted %s in %s)", c.Cmd, c.Plant, c.Where), c)
 		return nil
 	}
